@@ -132,7 +132,9 @@ DAfterOK(e) ==
                   !.span  = [q \in nsp |-> D.span[Old(q)]],
                   !.pf    = [q \in {R(p) : p \in DOMAIN D.pf} |-> D.pf[Old(q)]]], e)
       [] e.op = "add_bases" ->
-            AdoptInputs([D EXCEPT !.bases[e.s] = @ \o e.bs], e)
+            \* (re-adding an existing base moves it to the end of the order)
+            AdoptInputs([D EXCEPT !.bases[e.s] =
+                            SelectSeq(@, LAMBDA b : b \notin Range(e.bs)) \o e.bs], e)
       [] e.op = "remove_bases" ->
             AdoptInputs([D EXCEPT !.bases[e.s] =
                             SelectSeq(@, LAMBDA b : b \notin Range(e.bs))], e)
